@@ -637,7 +637,10 @@ class CExec:
         self.oblige(st, "ub", "oob_read." + p.obj, z3.And(p.off >= 0, p.off < o.length), node)
         if o.elem.is_ptr():
             if getattr(o, "holds_pyobj", False):
-                return Ptr(o.elem, "pyobj", z3.simplify(z3.Select(st.mem[p.obj], p.off)))
+                val = z3.simplify(z3.Select(st.mem[p.obj], p.off))
+                if z3.is_int_value(val) and val.as_long() == 0:
+                    return Ptr(o.elem, None, z3.IntVal(0))          # the cell holds NULL
+                return Ptr(o.elem, "pyobj", val)
             if getattr(o, "target", None):
                 # pointer cell into a known buffer: the cell holds the element offset
                 return Ptr(o.elem, o.target, z3.simplify(z3.Select(st.mem[p.obj], p.off)))
@@ -667,6 +670,9 @@ class CExec:
         if isinstance(v, Ptr):
             if getattr(o, "target", None) and v.obj == o.target:
                 st.mem[p.obj] = z3.Store(st.mem[p.obj], p.off, v.off)
+                return
+            if v.obj is None and getattr(o, "holds_pyobj", False):
+                st.mem[p.obj] = z3.Store(st.mem[p.obj], p.off, z3.IntVal(0))      # NULL: identity 0
                 return
             if v.obj == "pyobj" and o.elem.is_ptr():
                 # an array of object pointers (e.g. the parts of a string join): the cells hold object identities
@@ -892,10 +898,16 @@ class CExec:
             nm = "&" + st.names.get(rid, rid)
             cur = st.vars.get(rid)
             ety = node_type(sub)
-            if not (ety.is_int() or ety.is_float()):
+            objptr = ety.is_ptr() and (cur is None or (isinstance(cur, Ptr) and cur.obj in ("pyobj", None)))
+            if not (ety.is_int() or ety.is_float() or objptr):
                 raise OutOfSubset("address of non-scalar local")
-            self.new_obj(st, nm, ety, z3.IntVal(1))
-            if cur is not None:
+            o = self.new_obj(st, nm, ety, z3.IntVal(1))
+            if objptr:
+                # a local holding an object pointer (NULL = identity 0): a one-element array of object identities
+                o.holds_pyobj = True
+                if cur is not None:
+                    st.mem[nm] = z3.Store(st.mem[nm], 0, cur.off)
+            elif cur is not None:
                 st.mem[nm] = z3.Store(st.mem[nm], 0, cur.t)
             st.vars[rid] = ("array", nm)
             return Ptr(ty, nm, z3.IntVal(0))
